@@ -436,6 +436,9 @@ pub fn run(args: &Args, rep: &mut Report) {
         if !args.mine(idx) {
             continue;
         }
+        if idx % 64 == 0 && rep.over_budget() {
+            return;
+        }
         let snaps: Vec<Snap> = set
             .iter()
             .map(|&i| Snap { inst: i, tags: "", mark: 0, id_byte: i as u8 })
